@@ -17,6 +17,41 @@ def target(n, size, how):
     return n
 
 
+class Noisy:
+    """a result that logs while it is being pickled for the trip to the parent (the very last thing the child does)"""
+    def __reduce__(self):
+        logging.getLogger('child').warning('1000 logged while the result is pickled')
+        return (int, (7,))
+
+
+class HookProcess(Process):
+    """a subclass using the documented hook: what it logs about the failure is emitted after the target has ended"""
+    @staticmethod
+    def handle_exception(exc):
+        logging.getLogger('child').warning('2000 logged by the handle_exception hook: %r', exc)
+
+
+class OddArg:
+    """a log argument that cannot be pickled: the record's message is formatted in the child, so this never has to travel"""
+    def __init__(self):
+        import threading
+        self.lock = threading.Lock()
+    def __str__(self):
+        return 'odd'
+
+
+def late_target(how):
+    lg = logging.getLogger('child')
+    lg.warning('1 %s', OddArg())
+    lg.warning('2 plain')
+    if how == 'noisy-result':
+        return Noisy()
+    if how == 'hook-raise':
+        raise KeyError('k')
+    if how == 'hook-exit':
+        sys.exit(5)
+
+
 class H(logging.Handler):
     def __init__(self):
         super().__init__()
@@ -52,4 +87,20 @@ if __name__ == '__main__':
         assert p.exitcode is not None, 'child never exited'
         assert h.got == list(range(n)), (how, len(h.got), n, h.got[-5:])
         assert h.audit == 1, f'record of a logger the parent configured at DEBUG was handled {h.audit} times ({how}): filtered in the child?'
+    if n == 0:
+        # records emitted AFTER the target has ended (while the result is pickled; by the failure hook) and records with arguments that cannot travel
+        for how, cls, want in (('noisy-result', Process, [1, 2, 1000]), ('hook-raise', HookProcess, [1, 2, 2000]), ('hook-exit', HookProcess, [1, 2, 2000])):
+            h = H()
+            root = logging.getLogger()
+            root.addHandler(h)
+            root.setLevel(logging.INFO)
+            p = cls(target=late_target, args=(how,))
+            p.start()
+            try:
+                p.join(30)
+            except BaseException:      # noqa: BLE001
+                pass
+            root.removeHandler(h)
+            assert p.exitcode is not None, f'{how}: child never exited'
+            assert h.got == want, f'{how}: handled {h.got}, expected {want} (a record emitted after the target ended, or one with an unpicklable argument, was lost)'
     print('OK')
